@@ -20,11 +20,23 @@ def loc(b, line=None):
 # ====================================================================== FREEZE / STATICS
 
 FREEZE_EXCEPTIONS = {
-    # ADT path: reason
-    "recursive::OnceCell": "write-once cell of Recursive::declare/define (its writer discipline is rule ONCE)",
-    "recursive::Indirect": "holds the OnceCell above (write-once at definition time, before any parse)",
-    "regex::Regex": "regex_automata::meta::Regex keeps an internal scratch-cache pool (third-party, not observable in results)",
+    # ADT path: (fields through which interior mutability may be reached, reason)
+    "recursive::OnceCell": ({"0"}, "write-once cell of Recursive::declare/define (its writer discipline is rule ONCE)"),
+    "recursive::Indirect": ({"inner"}, "holds the OnceCell above (write-once at definition time, before any parse)"),
+    "regex::Regex": ({"regex"}, "regex_automata::meta::Regex keeps an internal scratch-cache pool (third-party, not observable in results)"),
 }
+
+
+def _freeze_excused(p, a):
+    """Interior mutability of ADT `p` is excused only when every path to an UnsafeCell starts at a reviewed field."""
+    exc = FREEZE_EXCEPTIONS.get(p)
+    if exc is None:
+        return False, a["interior_mut"][0].strip()
+    for path in a["interior_mut"]:
+        m = re.match(r"^\s*\.(\w+):", path)
+        if not m or m.group(1) not in exc[0]:
+            return False, path.strip()
+    return True, None
 
 
 def rule_freeze(facts):
@@ -48,24 +60,26 @@ def rule_freeze(facts):
         if a is None:
             continue  # foreign ADT (Box, Rc, Arc, Either)
         ok = not a["interior_mut"]
-        if not ok and p in FREEZE_EXCEPTIONS:
-            used_exc.append(p)
-            ok = True
+        bad = a["interior_mut"][0].strip() if a["interior_mut"] else None
+        if not ok:
+            ok, bad = _freeze_excused(p, a)
+            if ok:
+                used_exc.append(p)
         r.ob(ok)
         if not ok:
             r.violations.append(V("FREEZE", p, "interior mutability",
                                   "parser type %s contains interior mutability (%s): a parse could write to the parser value"
-                                  % (p, a["interior_mut"][0].strip()[:200]), a["file"], a["line"]))
+                                  % (p, bad[:200]), a["file"], a["line"]))
     # any *other* local ADT with interior mutability must be on the exception list too
     for p, a in sorted(facts.adts.items()):
         if a["interior_mut"] and p not in adts:
-            ok = p in FREEZE_EXCEPTIONS
+            ok, bad = _freeze_excused(p, a)
             if ok:
                 used_exc.append(p)
             r.ob(ok)
             if not ok:
                 r.violations.append(V("FREEZE", p, "interior mutability (helper type)",
-                                      "type %s contains interior mutability (%s)" % (p, a["interior_mut"][0].strip()[:200]),
+                                      "type %s contains interior mutability (%s)" % (p, bad[:200]),
                                       a["file"], a["line"]))
     r.explanation = ("every local ADT implementing Parser/IterParser/ConfigParser/Strategy/Operator (%d ADTs; %d impls on "
                      "foreign/non-ADT self types are forwarding impls) is free of UnsafeCell modulo its type parameters "
@@ -837,3 +851,50 @@ def _index_roots(facts, parent, pv, clos, ops, pred, argi):
                 else:
                     out.add(("closure-local", mirq.fmt_root(x)))
     return out
+
+
+# ====================================================================== NO-BACKTRACK (combinators with nothing to undo never rewind)
+
+NO_BACKTRACK = [
+    # (regex on body uname, why the combinator has nothing to undo)
+    (r"^combinator::(Map|MapWith|To|Ignored|ToSlice|ToSpan|Filter|TryMap|TryMapWith|Unwrapped|Validate)\[(Parser|IterParser)\]::", "one child, result passed through"),
+    (r"^label::Labelled\[Parser\]::|^combinator::(MapErr|MapErrWithState)\[Parser\]::", "changes how a failure is described, never whether or where"),
+    (r"^combinator::Memoized\[Parser\]::", "transparent cache around one child"),
+    (r"^(&T|Boxed|std::boxed::Box|std::rc::Rc|std::sync::Arc|either::Either)\[(Parser|ConfigParser)\]::|^recursive::Recursive\[Parser\]::", "forwarding impl"),
+    (r"^combinator::(WithCtx|WithState|Configure|IterConfigure|TryIterConfigure)\[|^primitive::MapCtx\[", "context / state / configuration provider around one child"),
+    (r"^combinator::(Then|IgnoreThen|ThenIgnore|DelimitedBy|PaddedBy|IgnoreWithCtx|ThenWithCtx)\[(Parser|IterParser)\]::|^primitive::Group\[", "sequence: a failed element fails the sequence, the caller restores"),
+    (r"^combinator::(Collect|Foldl|FoldlWith|Foldr|FoldrWith|IntoIter|Enumerate)\[", "drives an iterable parser; the iterator undoes its own failed attempts"),
+    (r"^combinator::NestedIn\[Parser\]::|^extension::current::Ext\[Parser\]::", "delegates to a sub-parse"),
+]
+
+
+def rule_no_backtrack(facts):
+    r = RuleResult("NO-BACKTRACK")
+    n = 0
+    for b in facts.bodies:
+        if b["kind"] == "Closure":
+            continue
+        why = None
+        for pat, w in NO_BACKTRACK:
+            if re.search(pat, b["uname"]):
+                why = w
+                break
+        if why is None or not re.search(r"::(go|go_cfg|next|next_cfg|make_iter)(<.*>)?$", b["uname"]):
+            continue
+        n += 1
+        hits = []
+        for x in [b] + mirq.closure_bodies(facts, b):
+            for _, bl, t, f in calls(x):
+                if f is not None and f["name"] in ("rewind", "rewind_input") and (f.get("self_ty") or "").startswith("input::InputRef"):
+                    hits.append((f["name"], x["file"], bl["line"]))
+        r.ob(not hits)
+        if hits:
+            r.violations.append(V("NO-BACKTRACK", b["uname"], "rewind in a combinator with nothing to undo",
+                                  "%s (%s) calls InputRef::%s: on its failure path that discards errors already emitted on a path the caller "
+                                  "may still keep (at top level they are reported), on its success path it drops errors of kept output"
+                                  % (b["uname"], why, hits[0][0]), hits[0][1], hits[0][2]))
+    r.explanation = ("%d bodies of wrapper / sequence / forwarding combinators (spec: rules_struct.NO_BACKTRACK) never call "
+                     "InputRef::rewind / rewind_input, directly or in their closures" % n)
+    r.nontrivial = n
+    r.require_floor(n, facts, "NO-BACKTRACK.bodies", "non-backtracking combinator bodies")
+    return r
